@@ -27,6 +27,8 @@
  *     coap_register_async with a CON or NON response) or a scripted RFC 7252 server that
  *     de-duplicates requests by message id (K rfc).
  *     result: the client's observed steps (as for exc) || times=.. || log=.. || end=..
+ *             || srv=<initial tx_mid of the server session> <the real server's steps: X:<datagram
+ *             received> > <datagrams sent>, TS > <datagrams sent by its timers>>
  *
  * Observed without any source change: datagrams at coap_socket_send (ld --wrap), the response
  * and nack handlers, the virtual clock.  The harness writes session->tx_mid / tx_token /
@@ -403,6 +405,7 @@ static void do_exw(void) {
 /* ------------------------------------------------------------------ exe: servers */
 static coap_tick_t adelay = 300;
 static int srv_nstart = 0, smid0 = -1, smid_set = 0;
+static long long smid_first = -1;   /* tx_mid of the server session before its first draw */
 
 /* real libcoap server: one handler, the style is the resource name */
 static void on_get(coap_resource_t *r, coap_session_t *s, const coap_pdu_t *req,
@@ -414,6 +417,7 @@ static void on_get(coap_resource_t *r, coap_session_t *s, const coap_pdu_t *req,
   if (!smid_set) {
     smid_set = 1;
     if (smid0 >= 0) s->tx_mid = (uint16_t)smid0;
+    smid_first = s->tx_mid;
     if (srv_nstart > 0) coap_session_set_nstart(s, (uint16_t)srv_nstart);
   }
   switch (sty) {
@@ -577,6 +581,26 @@ static void assign_fates(void) {
 
 static int kind_real = 1;
 
+/* the real server's steps, for the replay on the abstract server of System.v */
+static sb_t srvsteps;
+static int nsrvsteps = 0;
+static void srv_record(const char *input, size_t n0) {
+  int k = 0;
+  for (size_t j = n0; j < vn_nout; j++) if (vn_out[j].ctx == srv && srv) k++;
+  if (!input && k == 0) return;
+  sb_add(&srvsteps, "%s%s > ", nsrvsteps ? " | " : "", input ? input : "TS");
+  if (k == 0) sb_add(&srvsteps, "-");
+  int first = 1;
+  for (size_t j = n0; j < vn_nout; j++)
+    if (vn_out[j].ctx == srv && srv) {
+      char b[160];
+      dg_describe(b, sizeof(b), vn_out[j].data, vn_out[j].len);
+      sb_add(&srvsteps, "%s%s", first ? "" : ",", b);
+      first = 0;
+    }
+  nsrvsteps++;
+}
+
 static void deliver(size_t idx) {
   if (idx < MAXLOG) sb_add(&deliv[idx], "%s%llu", deliv[idx].n ? "+" : "", (unsigned long long)vn_now);
   int to_client = coap_address_equals(&vn_out[idx].dst, &cs->addr_info.local);
@@ -591,7 +615,12 @@ static void deliver(size_t idx) {
     vn_inject_session(cli, cs, copy, len);
     step_end(in);
   } else if (kind_real) {
+    char in[200], b[160];
+    size_t n0 = vn_nout;
+    dg_describe(b, sizeof(b), copy, len);
+    snprintf(in, sizeof(in), "X:%s", b);
     vn_route(idx);
+    srv_record(in, n0);
   } else {
     rfc_rx(copy, len);
   }
@@ -653,6 +682,7 @@ static void do_exe(void) {
   coap_address_copy(&cli_addr, &cs->addr_info.local);
   use_tok_verdict = 1;
   sb_reset(&steps); sb_reset(&times); nsteps = 0;
+  sb_reset(&srvsteps); nsrvsteps = 0; smid_first = -1;
   npend = 0; fated = 0;
   for (int k = 0; k < MAXLOG; k++) sb_reset(&deliv[k]);
 
@@ -670,7 +700,11 @@ static void do_exe(void) {
     if (nouts > 0 || qdue) step_end("T"); else recording = 0;
     /* 2. server timers */
     unsigned ws = 0;
-    if (kind_real) ws = vn_prepare(srv); else rfc_timers();
+    if (kind_real) {
+      size_t n0 = vn_nout;
+      ws = vn_prepare(srv);
+      srv_record(NULL, n0);
+    } else rfc_timers();
     assign_fates();
     /* 3. deliveries due now, oldest first */
     for (;;) {
@@ -731,6 +765,7 @@ static void do_exe(void) {
          (unsigned long long)vn_now, qi, nq);
   for (int k = 0; k < nreqs; k++)
     printf("%s%llu:%d:%d:%d", k ? "," : "", reqs[k].tok, reqs[k].mid, reqs[k].nresp, reqs[k].nnack);
+  printf(" || srv=%lld %s", smid_first, (srvsteps.s && nsrvsteps) ? srvsteps.s : "");
   printf("\n");
   all_teardown();
 }
